@@ -36,7 +36,7 @@ theorem onePoleFrom_length (alpha w : K) (us : List K) : (onePoleFrom alpha w us
   | nil => rfl
   | cons u us ih => simp [onePoleFrom, ih]
 
-theorem allpassFrom_length (alpha up yp : K) (us : List K) :
+theorem allpassFrom_length' (alpha up yp : K) (us : List K) :
     (allpassFrom alpha up yp us).length = us.length := by
   induction us generalizing up yp with
   | nil => rfl
@@ -45,8 +45,8 @@ theorem allpassFrom_length (alpha up yp : K) (us : List K) :
 theorem onePoleRun_length (alpha : K) (us : List K) : (onePoleRun alpha us).length = us.length :=
   onePoleFrom_length alpha 0 us
 
-theorem allpassRun_length (alpha : K) (us : List K) : (allpassRun alpha us).length = us.length :=
-  allpassFrom_length alpha 0 0 us
+theorem allpassRun_length' (alpha : K) (us : List K) : (allpassRun alpha us).length = us.length :=
+  allpassFrom_length' alpha 0 0 us
 
 theorem onePoleFrom_getD (alpha w : K) (us : List K) (t : Nat) (ht : t < us.length) :
     (onePoleFrom alpha w us).getD t 0 =
@@ -106,7 +106,7 @@ theorem warpChain_length (alpha : K) (us : List K) (k : Nat) : (warpChain alpha 
     | 1 => exact onePoleRun_length alpha us
     | k + 2 =>
       show (allpassRun alpha (warpChain alpha us (k + 1))).length = us.length
-      rw [allpassRun_length, ih (k + 1) (by omega)]
+      rw [allpassRun_length', ih (k + 1) (by omega)]
 
 theorem warpBasis_length (alpha : K) (us : List K) (k : Nat) : (warpBasis alpha us k).length = us.length := by
   unfold warpBasis
@@ -118,7 +118,7 @@ theorem warpBasis_one_getD (alpha : K) (us : List K) (t : Nat) (ht : t < us.leng
   rw [onePoleRun_getD alpha _ t (by rw [delay1_length]; exact ht), delay1_getD us t ht]
   rfl
 
-theorem warpBasis_succ_getD (alpha : K) (us : List K) (k t : Nat) (ht : t < us.length) :
+theorem warpBasis_succ_getD' (alpha : K) (us : List K) (k t : Nat) (ht : t < us.length) :
     (warpBasis alpha us (k + 2)).getD t 0 =
       pg (warpBasis alpha us (k + 1)) t - alpha * (warpBasis alpha us (k + 1)).getD t 0 +
         alpha * pg (warpBasis alpha us (k + 2)) t := by
@@ -225,7 +225,7 @@ theorem dffG_warp (alpha : K) (c ys d : List K) (t : Nat) (ht : t < ys.length) (
   induction i with
   | zero => exact h0
   | succ i ih =>
-    rw [warpBasis_succ_getD alpha ys i t ht, ← ih (by omega), ← hk (i + 1) (by omega) (by omega),
+    rw [warpBasis_succ_getD' alpha ys i t ht, ← ih (by omega), ← hk (i + 1) (by omega) (by omega),
       ← hk (i + 2) (by omega) hi]
     simp only [dffG]
     ring
